@@ -66,7 +66,7 @@ def sh(cmd, **kw):
 
 # ---------------------------------------------------------------- codegen
 
-def codegen(crate, harness_names):
+def codegen(crate, harness_names, needed=None):
     """(Re)generate GOTO symbol tables for the given harnesses of one harness
     crate from the current /repo tree. Returns {pretty_name: metadata}."""
     cdir = os.path.join(VERIF, "harness", crate)
@@ -117,6 +117,8 @@ def codegen(crate, harness_names):
             raise RuntimeError("harnesses not generated in %s: %s\n%s" % (crate, sorted(missing), r.stdout[-3000:]))
         # private copies, so that a concurrent codegen cannot disturb the solver runs
         for name, h in out.items():
+            if needed is not None and name not in needed:
+                continue
             wd = os.path.join(BUILD, "run", crate, name.replace("::", "."))
             os.makedirs(wd, exist_ok=True)
             dst = os.path.join(wd, "h.symtab.out")
@@ -484,7 +486,14 @@ def main():
     metas, build_s, build_err = {}, {}, None
     for crate, ss in by_crate.items():
         try:
-            m, dt = codegen(crate, [s["name"] for s in ss])
+            # the GOTO symbol names contain a hash of the *set* of harnesses compiled together;
+            # always compile the tier's whole set of the crate, so that the formula of a harness
+            # (and with it the result cache key) does not depend on the property being checked
+            wanted = set(s["name"] for s in ss)
+            for h in registry.H:
+                if h["crate"] == crate and (tier == "thorough" or h["tier"] == "quick") and not h["props"][0].startswith("X"):
+                    wanted.add(h["name"])
+            m, dt = codegen(crate, sorted(wanted), needed=set(s["name"] for s in ss))
             build_s[crate] = round(dt, 1)
             for s in ss:
                 metas[(crate, s["name"])] = m[s["name"]]
